@@ -30,7 +30,7 @@ NA = {
  'C15': 'type traits / concepts / numeric_limits / ratio are compile-time constants and types: there is no executable code to encode and the quantifier ranges over C++ types, which an SMT variable cannot (DESIGN.md section 3)',
 }
 # properties whose quick check has been run by the lead on the current tree and exits 0 (set grows during integration)
-READY = {'C01', 'C04', 'C05', 'C06', 'C07', 'C08', 'C09', 'C10', 'C11', 'C12', 'C13', 'C14', 'C16', 'C17', 'C18', 'C19', 'C20'}
+READY = {'C01', 'C02', 'C03', 'C04', 'C05', 'C06', 'C07', 'C08', 'C09', 'C10', 'C11', 'C12', 'C13', 'C14', 'C16', 'C17', 'C18', 'C19', 'C20'}
 PENDING = 'check under construction in this session; not claimed until its harness family is committed'
 
 def main():
